@@ -542,6 +542,20 @@ def split_by_arms(full, full_lines, line_metas, fd, item, canary):
     arms, ob, cb = match_arms(full, mask, mpos)
     if len(arms) < 2:
         raise LostAnchor("split: fewer than two arms in %s" % item)
+    # an arm whose body is itself a `match` with four or more arms is split one level further: its
+    # sub-arms become cases of their own (BinOp => match op { .. } in TypeChecker::expression)
+    flat = []
+    for (h, a, e) in arms:
+        b = a
+        while b < e and mask[b] in ' \n\t':
+            b += 1
+        if re.match(r'match\b', mask[b:b + 6]):
+            sub, sob, scb = match_arms(full, mask, b)
+            if len(sub) >= 4 and scb + 1 >= e - 1:
+                flat.extend(sub)
+                continue
+        flat.append((h, a, e))
+    arms = flat
     # one part per arm whose body spans at least 3 lines; all smaller arms share the last part
     big = [idx for idx, (h, a, e) in enumerate(arms) if full.count('\n', a, e) >= 2]
     small = [idx for idx in range(len(arms)) if idx not in big]
@@ -553,7 +567,8 @@ def split_by_arms(full, full_lines, line_metas, fd, item, canary):
     nparts = len(big) + (1 if small else 0)
     if canary:
         # the canary copy keeps only the smallest arm real (enough to type-check the match)
-        smallest = min(range(len(arms)), key=lambda q: arms[q][2] - arms[q][1])
+        cand = [q for q in range(len(arms)) if 'unreachable' not in full[arms[q][1]:arms[q][2]] and 'return' not in full[arms[q][1]:arms[q][2]]] or list(range(len(arms)))
+        smallest = min(cand, key=lambda q: arms[q][2] - arms[q][1])
         assign = {idx: (0 if idx == smallest else 1) for idx in range(len(arms))}
         nparts = 1
     # line index of every char offset
